@@ -34,9 +34,14 @@ def has_line(self):
 P_DP = 'exactly_lib.section_document.impl.document_parser'
 
 
+ALSO_ABSTRACT = ('exactly_lib.section_document.element_parsers.optional_description_and_instruction_parser:'
+                 'InstructionWithOptionalDescriptionParser.parse',)
+
+
 def at_document_level(interp):
-    """the function under verification belongs to the document parser (impl/document_parser.py)"""
-    return interp.fn_name.startswith(P_DP + ':')
+    """the function under verification belongs to the document parser (impl/document_parser.py) -- or is
+    another function that only passes ParseSources on to functions under contract"""
+    return interp.fn_name.startswith(P_DP + ':') or interp.fn_name in ALSO_ABSTRACT
 
 
 def element_level_only(f):
@@ -127,7 +132,7 @@ def _line_start_at(orig, k):
 
 
 NEVER_ASSUMED = lambda fn_name: False      # clauses proved of a function that no caller needs
-NOT_IN_DOCUMENT_PARSER = lambda fn_name: not fn_name.startswith(P_DP + ':')      # `inline=`: see element_level_only
+NOT_IN_DOCUMENT_PARSER = lambda fn_name: not (fn_name.startswith(P_DP + ':') or fn_name in ALSO_ABSTRACT)   # `inline=`: see element_level_only
 
 
 PARSE_SOURCE = Inst(ParseSource, _column_index=Int, source_string=Str,
@@ -449,7 +454,17 @@ class InstructionParserI(Interface):
     methods = {'parse': Method(model=_instruction_parser_parse)}
 
 
+def _parsed_instruction_for_callers(interp, bound):
+    """the result at call sites: a ParsedInstruction with arbitrary lines and instruction, the description given"""
+    instruction = Any_.make(interp, 'instruction')
+    interp.st.ghost['parsed-instruction'] = instruction
+    return pse.ParsedInstruction(LINE_SEQUENCE.make(interp, 'parsed.source'),
+                                 InstructionInfo(instruction, bound['description']))
+
+
 M.contract(P_SEP + ':parse_and_compute_source',
+           event=('parse-and-compute-source', lambda source, orig: off_of(source, orig)),
+           returns=_parsed_instruction_for_callers,
            params=dict(parser=Iface(InstructionParserI), fs_location_info=Any_, source=PARSE_SOURCE,
                        description=Any_),
            ghosts=dict(orig=Str),
@@ -469,7 +484,7 @@ M.contract(P_SEP + ':parse_and_compute_source',
                and forall_range(0, len(result.source.lines), lambda j: NL not in result.source.lines[j]),
                'instruction-and-description-passed-through': lambda result, description, ghost:
                result.instruction_info.instruction is ghost['parsed-instruction']
-               and result.instruction_info.description is description,
+               and result.instruction_info.description == description,
            })
 
 
@@ -1684,3 +1699,109 @@ def _test_case_parser_configuration(ctx):
                                      file_inclusion_directive_parser.FileInclusionDirectiveParser,
                                      odi.InstructionWithOptionalDescriptionParser], 'enumeration',
                        detail={'parsers': [k.__name__ for k in kinds]})
+
+
+# ============================================================================== instructions with optional description
+
+from exactly_lib.section_document.element_parsers import optional_description_and_instruction_parser as odi
+
+P_ODI = 'exactly_lib.section_document.element_parsers.optional_description_and_instruction_parser'
+
+DESCRIPTION_EXTRACTOR = Inst(odi._DescriptionExtractor, source=PARSE_SOURCE, remaining_source=Str)
+
+
+@element_level_only
+def _extractor_ok(source, remaining_source, orig):
+    """an extractor whose remaining_source is the unconsumed text of its source, of which there is some"""
+    return RI(source, orig) and has_line(source) and remaining_source == orig[off_of(source, orig):] \
+        and remaining_source != ''
+
+
+def _new_extractor_state(interp, extractor, bound):
+    """frame of _DescriptionExtractor.__init__ at call sites: the two fields are set; the source (the argument) has
+    moved within its line"""
+    source = bound['source']
+    interp.setattr(extractor, 'source', source)
+    interp.setattr(extractor, 'remaining_source', Str.make(interp, 'extractor.remaining_source'))
+
+
+M.contract(P_ODI + ':_DescriptionExtractor.__init__', inline=NOT_IN_DOCUMENT_PARSER,
+           params=dict(self=Inst(odi._DescriptionExtractor), source=PARSE_SOURCE), ghosts=dict(orig=Str),
+           # there is something other than white space left on the current line.  NOT guaranteed by the parsers that
+           # come before this one in a phase: they only take lines of spaces and tabs.  See notes/C07.md, defect 1.
+           requires=lambda source, orig: RI(source, orig) and has_line(source)
+           and source._current_line_text is not None
+           and not all_space(source._current_line_text[source._column_index:]),
+           old=lambda source, orig: (off_of(source, orig), snap(source)),
+           modifies={'source': dict(_column_index=Int), 'self': HavocBy(_new_extractor_state)},
+           ensures={'extractor-over-the-source-after-its-initial-space': lambda self, source, orig, old:
+                    self.source is source and _extractor_ok(source, self.remaining_source, orig)
+                    and off_of(source, orig) >= old[0] and unchanged_but_column(source, old[1])},
+           raises_only=())
+
+M.contract(P_ODI + ':_DescriptionExtractor.apply',
+           params=dict(self=DESCRIPTION_EXTRACTOR), ghosts=dict(orig=Str),
+           requires=lambda self, orig: _extractor_ok(self.source, self.remaining_source, orig),
+           old=lambda self, orig: off_of(self.source, orig),
+           modifies={'self.source': PS_FRAME},
+           returns=Opt(Str),
+           raises={RecognizedSectionElementSourceError: {'ensures': lambda self, orig, old:
+                   RI(self.source, orig) and off_of(self.source, orig) >= old}},
+           ensures={'source-well-formed-moved-forward-with-a-current-line': lambda self, orig, old:
+                    RI(self.source, orig) and off_of(self.source, orig) >= old and has_line(self.source)},
+           raises_only=())
+
+P_ODI_P = P_ODI + ':InstructionWithOptionalDescriptionParser'
+LINE = Inst(Line, _tuple=[Int, Str])
+
+M.contract(P_ODI_P + '._consume_space_and_comment_lines',
+           params=dict(source=PARSE_SOURCE, first_line=LINE), ghosts=dict(orig=Str),
+           requires=lambda source, orig: RI(source, orig) and has_line(source),
+           old=lambda source, orig: off_of(source, orig),
+           modifies=dict(source=PS_FRAME),
+           raises={UNRECOGNIZED: {'ensures': lambda source, orig, old:
+                   RI(source, orig) and off_of(source, orig) >= old}},
+           ensures={'source-well-formed-moved-forward-with-a-current-line': lambda source, orig, old:
+                    RI(source, orig) and off_of(source, orig) >= old and has_line(source)},
+           raises_only=())
+M.loop(P_ODI_P + '._consume_space_and_comment_lines', 0,
+       invariant=lambda source, orig, old: RI(source, orig) and off_of(source, orig) >= old,
+       modifies={'source._column_index': Int, 'source.source_string': Str,
+                 'source._current_line_number': Opt(Int), 'source._current_line_text': Opt(Str),
+                 'line_in_error_message': LINE})
+
+ODI_PARSER = Inst(odi.InstructionWithOptionalDescriptionParser, instruction_parser=Iface(InstructionParserI))
+
+M.contract(P_ODI_P + '.parse',
+           params=dict(self=ODI_PARSER, fs_location_info=Any_, source=PARSE_SOURCE), ghosts=dict(orig=Str),
+           # (called on a line that the comment / blank-line parser did not take: something is left on it)
+           requires=lambda source, orig: RI(source, orig) and has_line(source)
+           and source._current_line_text is not None
+           and not all_space(source._current_line_text[source._column_index:]),
+           old=lambda source, orig: (snap(source), off_of(source, orig)),
+           modifies=dict(source=PS_FRAME),
+           # works on a copy: whatever goes wrong, the source itself is untouched (what the sequence of parsers
+           # relies on for UnrecognizedSectionElementSourceError; here: for every exception)
+           raises={PARSER_EXCEPTION: {'ensures': lambda source, old: unchanged(source, old[0])},
+                   SectionElementError: {'ensures': lambda source, old: unchanged(source, old[0])}},
+           ensures={
+               'source-well-formed-and-moved-forward': lambda source, orig, old:
+               RI(source, orig) and off_of(source, orig) >= old[1],
+               'the-lines-of-the-element-are-the-text-the-instruction-parser-consumed (after the description)':
+                   lambda result, source, orig, old, trace: _element_is_instruction_text(result, source, orig, old[1], trace),
+               'the-instruction-is-what-the-instruction-parser-returned': lambda result, ghost:
+               result.instruction_info.instruction is ghost['parsed-instruction'],
+           }, raises_only=())
+
+
+def _element_is_instruction_text(result, source, orig, old_off, trace):
+    """start: the offset at which parse_and_compute_source was called (ghost event) -- after the description,
+    comments and space; the element's lines are the text from there to where the source is now, its first line
+    number is that of `start`"""
+    starts = [e[2] for e in trace if e[0] == 'parse-and-compute-source']
+    if len(starts) != 1:
+        return False
+    start = starts[0]
+    return start >= old_off and len(result.source.lines) >= 1 \
+        and NL.join(result.source.lines) == without_final_newline(orig[start:off_of(source, orig)]) \
+        and result.source.first_line_number == line_number_at(orig, start)
